@@ -70,6 +70,7 @@ type Frame struct {
 	rets   []retInfo
 	typeArgs map[string]types.Type
 	curSite  ssa.Instruction
+	rangeDom map[ssa.Value]string // key set a map iteration started from
 	heads    map[*ssa.BasicBlock]*State
 }
 
@@ -105,7 +106,10 @@ func (x *Exec) compSort(key string) string {
 	case "dfr":
 		return "Bool"
 	case "g":
-		return rest[strings.IndexByte(rest, '|')+1:]
+		if s := rest[strings.IndexByte(rest, '|')+1:]; s != "IDX" {
+			return s
+		}
+		return x.c.idxSort()
 	}
 	panic("compSort " + key)
 }
